@@ -6,7 +6,7 @@ from .. import gen
 
 def worklist_program(rng, pid, dev, nops, unit=Fraction(1), maxunits=16, wlmax=None, fault=0.0, fault_last=False,
                      comps=True, big_geom=False, small=True, autosplit=True, diti=False, direct=False, flags=None,
-                     weights=None, transfer_kw=None):
+                     weights=None, transfer_kw=None, big_factor=3):
     """Generate (by driving the implementation) one program. Returns the replayable program."""
     lws = gen.random_labware(rng, small=small, maxunits=maxunits, big_geom=big_geom)
     wlmax = wlmax if wlmax is not None else rng.choice([2, 3, 5, maxunits])
@@ -14,7 +14,7 @@ def worklist_program(rng, pid, dev, nops, unit=Fraction(1), maxunits=16, wlmax=N
     fl.update(flags or {})
     hdr = gen.header(pid, dev, unit, wlmax, lws, autosplit=autosplit, diti=diti, flags=fl)
     sess = gen.Session(hdr)
-    big = max(1, 3 * wlmax if autosplit else wlmax)
+    big = max(1, big_factor * wlmax if autosplit else wlmax)
     w = weights or {"transfer": 5, "distribute": 2, "aspirate": 1, "dispense": 1, "add": 1 if direct else 0, "remove": 1 if direct else 0}
     kinds = [k for k, n in w.items() for _ in range(n)]
     try:
